@@ -261,7 +261,7 @@ TABLE = {
         cell('n-negative-around-3wp', lambda r, b, p: I(-3 * (p + 20) + r.randint(-3, 3)), real_in(-3, 8, 0), cost=2),
         cell('direct-convergence-switch', integer(2, 30), real_p(lambda p: (p + 18, p + 40), 0)),
         Cell('x-negative', args(integer(-6, 12), real_in(-3, 6, 1))),
-        Cell('x-below-2^-10-generic', args(integer(-6, 12), real_in(-60, -10)), cost=2),
+        Cell('x-below-2^-10-generic', args(integer(-6, 12), real_in(-60, -10)), cost=3),
         Cell('x-tiny-n>1', args(integer(2, 12), real_in(-200, -60, 0)), cost=2),
         Cell('real-n', args(real_in(-3, 4), real_in(-3, 5, 0)), cost=2),
         Cell('real-n-x-large', args(real_in(-3, 4), real_in(5, 12, 0)), cost=2),
